@@ -38,7 +38,8 @@ func (o c14Op) String() string {
 
 func c14Ops() []c14Op {
 	var ops []c14Op
-	for _, t := range []string{"a", "b", "c", "", "ab"} {
+	// " " and "a " are names like any other: non-empty and different from "a"
+	for _, t := range []string{"a", "b", "c", "", "ab", " ", "a "} {
 		ops = append(ops, c14Op{kind: "AddType", typ: t})
 	}
 	ops = append(ops, c14Op{kind: "AddRel", typ: "a", rel: j.Rel{FromType: "a", FromName: "bc", ToType: "ab", ToName: "c"}})
@@ -61,6 +62,9 @@ func c14Ops() []c14Op {
 			c14Op{kind: "AddRel", typ: t, rel: j.Rel{FromType: t, FromName: "r", ToType: ""}},
 			c14Op{kind: "RemoveRel", typ: t, name: "r"},
 			c14Op{kind: "RemoveRel", typ: t, name: "s"},
+			// removing an attribute by the name of a relationship (and vice versa) removes nothing
+			c14Op{kind: "RemoveAttr", typ: t, name: "r"},
+			c14Op{kind: "RemoveRel", typ: t, name: "x"},
 		)
 	}
 	ops = append(ops, c14Op{kind: "Lookups"})
@@ -359,7 +363,7 @@ func init() {
 	sort.Strings(names)
 	Register(&Prop{
 		ID: "C14",
-		Rule: fmt.Sprintf("Engine B: breadth-first search over ALL histories (depth <= 6 quick / 8 thorough) of %d schema-edit operations (AddType/RemoveType over {a,b,c,\"\",unknown}; AddAttr with valid, empty-named, invalid-kind attributes; RemoveAttr; AddRel with valid, duplicate, empty-named, empty-target relationships; RemoveRel; AddTwoWayRel in normalised and non-normalised direction, within one type, with a missing type and taken names) on a real Schema, de-duplicated by a deep heap snapshot (type ORDER is part of the state, so first/middle/last removals are distinct). Oracle on every transition: no panic, error iff the list-of-types model says so, error => snapshot unchanged, Schema.Types == model, well-formedness invariant, HasType/GetType agree with the list. A state is non-trivial when it holds at least one type", len(c14Ops())),
+		Rule: fmt.Sprintf("Engine B: breadth-first search over ALL histories (depth <= 6 quick / 8 thorough) of %d schema-edit operations (AddType/RemoveType over {a,b,c,\"\",ab,\" \",\"a \",unknown}; AddAttr with valid, empty-named, invalid-kind attributes; RemoveAttr (incl. by the name of a relationship); AddRel with valid, duplicate, empty-named, empty-target relationships; RemoveRel (incl. by the name of an attribute); AddTwoWayRel in normalised and non-normalised direction, within one type, with a missing type and taken names) on a real Schema, de-duplicated by a deep heap snapshot (type ORDER is part of the state, so first/middle/last removals are distinct). Oracle on every transition: no panic, error iff the list-of-types model says so, error => snapshot unchanged, Schema.Types == model, well-formedness invariant, HasType/GetType agree with the list. A state is non-trivial when it holds at least one type", len(c14Ops())),
 		Assumptions: []string{"a relationship that is its own inverse is outside the domain (as stated)"},
 		Harnesses: []Harness{{
 			Name: "C14/edits",
